@@ -9,7 +9,13 @@ C10 "hooks":  entity hooks that run a query while a flush is in progress (before
               After the flush (explicit, by commit, or the auto-flush of another query) the SAME query - same code object, same parameters - must agree
               with the rows in the database and with the objects' own attributes.
 
-Script protocol (vlib.run_impl): {"family": "c09"|"c10", "cases": [name...] | null} -> {"results": [{"case", "ok", "detail"}]}
+C11 "pending-unique": a placeholder reached through a relationship gets a new value for a unique attribute; its row is then loaded while the write is pending
+              (Entity.set / a reverse assignment of an unloaded to-one attribute load it with flushing disabled; attribute reads and queries flush first);
+              every unique value must map to the object that holds it, get() must find it, a second holder must be refused, the vacated value reusable.
+C12 "probe":  `x in a.coll` on a partially loaded many-to-many collection, then the link is made (or removed) from the OTHER end; the probe, the probe of the
+              other end, iteration of both ends and a new session must agree.
+
+Script protocol (vlib.run_impl): {"family": "c09"|"c10"|"c11"|"c12", "cases": [name...] | null} -> {"results": [{"case", "ok", "detail"}]}
 """
 import itertools, json, os, sqlite3, sys, tempfile, shutil, warnings
 
@@ -175,10 +181,149 @@ def c10_case(workdir, hook, flush_by):
 C10_CASES = {'hook:%s:%s' % (h, f): (h, f) for h, f in itertools.product(('before_insert', 'before_insert_param', 'before_update', 'after_insert'), ('flush', 'commit', 'autoflush'))}
 
 
+# ---------------------------------------------------------------- C11: a row loaded over a pending write of a unique attribute
+
+def c11_case(workdir, loader, then):
+    path = os.path.join(workdir, 'c11.sqlite')
+    if os.path.exists(path): os.remove(path)
+    db = orm.Database()
+    class Person(db.Entity):
+        id = orm.PrimaryKey(int)
+        name = orm.Required(str)
+        email = orm.Required(str, unique=True)
+        nick = orm.Optional(str, unique=True, nullable=True)
+        boss = orm.Optional('Person', reverse='staff')
+        staff = orm.Set('Person', reverse='boss')
+        cars = orm.Set('Car')
+    class Car(db.Entity):
+        id = orm.PrimaryKey(int)
+        owner = orm.Required(Person)
+    db.bind('sqlite', path, create_db=True)
+    db.generate_mapping(create_tables=True)
+    problems = []
+    def check_indexes(label):
+        cache = db._get_cache()
+        for attr in (Person.email, Person.nick):
+            index = cache.indexes[attr]
+            for obj in cache.objects:
+                if not isinstance(obj, Person) or obj._status_ in ('deleted', 'cancelled', 'marked_to_delete'): continue
+                val = obj._vals_.get(attr)
+                if val is None: continue
+                if index.get(val) is not obj:
+                    problems.append('%s: %r holds %s %r, but the session index maps %r to %r' % (label, obj, attr.name, val, val, index.get(val)))
+            for val, obj in index.items():
+                if obj._vals_.get(attr) != val:
+                    problems.append('%s: the session index maps %s %r to %r, whose value is %r' % (label, attr.name, val, obj, obj._vals_.get(attr)))
+    try:
+        with orm.db_session:
+            p = Person(id=1, name='A', email='a', nick='na')
+            Person(id=5, name='Boss', email='boss')
+            Car(id=1, owner=p)
+        with orm.db_session:
+            boss = Person[5]
+            p = Car[1].owner                       # placeholder: only the primary key is known
+            p.email = 'b'                          # pending write of a unique attribute
+            if then == 'two-keys': p.nick = 'nb'
+            check_indexes('after the assignment')
+            if loader == 'set-ref': p.set(boss=boss)            # loads the row with flushing disabled
+            elif loader == 'set-ref-and-name': p.set(boss=boss, name='AA')
+            elif loader == 'staff-add': boss.staff.add(p)       # reverse.__set__ of an unloaded to-one attribute loads the row as well
+            elif loader == 'attr-read': p.name
+            else: Person.select(lambda x: x.id == 1)[:]
+            if p.email != 'b': problems.append('p.email reads %r after the load, the program wrote b' % p.email)
+            check_indexes('after the load')
+            same = Person.get(email='b')
+            if same is not p: problems.append("Person.get(email='b') returned %r, not the object %r that holds 'b'" % (same, p))
+            try: q = Person(id=2, name='Q', email='b')
+            except orm.core.CacheIndexError: pass
+            else:
+                problems.append("two live objects in one session hold the unique email 'b': %r and %r" % (p, q))
+                q.delete()
+            try: r = Person(id=3, name='R', email='a')
+            except orm.core.CacheIndexError as e: problems.append("email 'a' is held by no object in the session, yet a creation with it was refused: %s" % e)
+            else:
+                check_indexes('after the reuse of the vacated value')
+                orm.flush()
+                if Person.get(email='a') is not r or Person.get(email='b') is not p: problems.append('lookups by email do not return the holders after the flush')
+            orm.commit()
+        with orm.db_session:
+            rows = sorted((x.id, x.email) for x in Person.select())
+            if (1, 'b') not in rows or (3, 'a') not in rows: problems.append('committed rows %s: expected (1, b) and (3, a)' % rows)
+    finally:
+        db.disconnect()
+    return problems
+
+
+C11_CASES = {'pending-unique:%s:%s' % (l, t): (l, t) for l, t in itertools.product(('set-ref', 'set-ref-and-name', 'staff-add', 'attr-read', 'query'), ('one-key', 'two-keys'))}
+
+
+# ---------------------------------------------------------------- C12: membership probes on partially loaded many-to-many collections
+
+def c12_case(workdir, side, link):
+    path = os.path.join(workdir, 'c12.sqlite')
+    if os.path.exists(path): os.remove(path)
+    db = orm.Database()
+    class Student(db.Entity):
+        id = orm.PrimaryKey(int)
+        courses = orm.Set('Course')
+    class Course(db.Entity):
+        id = orm.PrimaryKey(int)
+        students = orm.Set(Student)
+    db.bind('sqlite', path, create_db=True)
+    db.generate_mapping(create_tables=True)
+    problems = []
+    # side 's': probes on student.courses, links made from course.students; side 'c': the mirror image
+    def own(o): return o.courses if isinstance(o, Student) else o.students
+    try:
+        with orm.db_session:
+            s1, s2 = Student(id=1), Student(id=2)
+            c1, c2 = Course(id=1), Course(id=2)
+            s1.courses.add(c1)
+            if side == 'c': pass
+            Student(id=3); Course(id=3)
+        with orm.db_session:
+            S = {i: Student[i] for i in (1, 2, 3)}; C = {i: Course[i] for i in (1, 2, 3)}
+            a, others = (S[1], C) if side == 's' else (C[1], S)
+            x, y = others[2], others[3]
+            def agree(label, o):
+                p1 = o in own(a); p2 = a in own(o); p3 = a in set(own(o))
+                if not (p1 == p2 == p3): problems.append('%s: %r in %r.coll is %s, %r in %r.coll is %s, by iteration of the other end %s' % (label, o, a, p1, a, o, p2, p3))
+                return p1
+            if x in own(a): problems.append('a membership probe is True before anything was linked')
+            if link == 'add': own(x).add(a)
+            elif link == 'assign': (setattr(x, 'students', [a]) if side == 's' else setattr(x, 'courses', [a]))
+            elif link == 'add-remove-add': own(x).add(a); own(x).remove(a); own(x).add(a)
+            elif link == 'add-flush': own(x).add(a); orm.flush()
+            else:   # 'remove': probe a present member, unlink it from the other end
+                if not (others[1] in own(a)): problems.append('a stored member is not found by the probe')
+                own(others[1]).remove(a)
+            expect_x = link != 'remove'
+            if link == 'remove':
+                if agree('after the removal from the other end', others[1]): problems.append('the removed member is still found by the probe')
+            else:
+                if not agree('after the link from the other end', x): problems.append('the member linked from the other end is not found by the probe')
+            agree('an object never linked', y)
+            members = {o.id for o in own(a)}
+            want = ({1, 2} if link != 'remove' else set())
+            if members != want: problems.append('iteration shows %s, expected %s' % (sorted(members), sorted(want)))
+            for o in others.values():
+                if (o in own(a)) != (o.id in want): problems.append('probe after the full load: %r in coll is %s' % (o, o in own(a)))
+        with orm.db_session:
+            a = Student[1] if side == 's' else Course[1]
+            got = {o.id for o in own(a)}
+            if got != want: problems.append('a new session reads %s, expected %s' % (sorted(got), sorted(want)))
+    finally:
+        db.disconnect()
+    return problems
+
+
+C12_CASES = {'probe:%s:%s' % (sd, l): (sd, l) for sd, l in itertools.product(('s', 'c'), ('add', 'assign', 'add-remove-add', 'add-flush', 'remove'))}
+
+
 def main():
     payload = json.loads(sys.stdin.read())
     fam = payload['family']
-    table, fn = (C09_CASES, c09_case) if fam == 'c09' else (C10_CASES, c10_case)
+    table, fn = {'c09': (C09_CASES, c09_case), 'c10': (C10_CASES, c10_case), 'c11': (C11_CASES, c11_case), 'c12': (C12_CASES, c12_case)}[fam]
     names = payload.get('cases') or sorted(table)
     work = tempfile.mkdtemp(prefix='scen_', dir='/tmp')
     out = []
